@@ -61,10 +61,10 @@ def build(spec):
     return m
 
 
-def simulate(m, db, span, plan=None, method="first_order"):
+def simulate(m, db, span, plan=None, method="first_order", **kw):
     buf = io.StringIO()
     with contextlib.redirect_stdout(buf):
-        return m.simulate(db, span, method=method, deviation=False, plan=plan)
+        return m.simulate(db, span, method=method, deviation=False, plan=plan, **kw)
 
 
 def arr(db, name, lo=-2, hi=N - 1):
@@ -101,12 +101,18 @@ def shock_name(spec, ins):
     return ("ant_" if ins[0] == "a" else "") + spec.shk(ins[1])
 
 
-def check_plan(spec, m, plan_desc, res, ctx, methods=("first_order",)):
+def check_plan(spec, m, plan_desc, res, ctx, methods=("first_order",), n_per=N):
+    """n_per: number of simulated periods (N, or the date of the last plan point: the plan then ends on the last
+    period of the span)"""
     mode, targets, instruments = plan_desc
     name = spec.name
-    span = START >> (START + N - 1)
+    NP = n_per
+    span = START >> (START + NP - 1)
     amp = 0.1 if spec.log else 1.0
-    case = {"spec": spec.to_json(), "plan": [mode, [list(t) for t in targets], [list(i) for i in instruments]]}
+    case = {"spec": spec.to_json(), "plan": [mode, [list(t) for t in targets], [list(i) for i in instruments]], "n_per": NP}
+
+    def arr(db, name, lo=-2, hi=None):
+        return globals()["arr"](db, name, lo, NP - 1 if hi is None else hi)
 
     def bad(check, detail, **extra):
         sig = {"mode": mode, "k": len(targets), "leads": spec.max_lead() > 0, "log": spec.log}
@@ -144,7 +150,8 @@ def check_plan(spec, m, plan_desc, res, ctx, methods=("first_order",)):
         db_in[spec.var(j0)][START - 1] = val(db_in, spec.var(j0), 0) * np.exp(0.2 * amp) if spec.log else val(db_in, spec.var(j0), 0) + 0.2
         # a bystander: an anticipated shock that is known, not endogenized, and stays in the input (date 4 is never an
         # instrument date, so the run keeps a single information set)
-        db_in["ant_" + spec.shk(spec.n - 1)][START + 3] = 0.3 * amp
+        if NP > 3:
+            db_in["ant_" + spec.shk(spec.n - 1)][START + 3] = 0.3 * amp
         truth = None
         if source == "inversion":
             db_true = db_in.copy()
@@ -179,7 +186,9 @@ def check_plan(spec, m, plan_desc, res, ctx, methods=("first_order",)):
                     continue
                 bad("exception", "%s: %s" % (type(e).__name__, msg[:300]), method=method, source=source, error=type(e).__name__)
                 continue
-            res.nt((name, mode, tuple(targets), tuple(instruments), source, method))
+            res.nt((name, mode, tuple(targets), tuple(instruments), source, method, NP))
+            if NP != N:
+                res.count("plans_ending_on_the_last_period")
             res.count("planned_simulations_" + method)
             tol = 1e-8 if method == "first_order" else 1e-6
             # absolute tolerance relative to the largest number in the run: an admissible (cond <= 1e6) but poorly
@@ -198,13 +207,28 @@ def check_plan(spec, m, plan_desc, res, ctx, methods=("first_order",)):
             endo = {(shock_name(spec, ins), ins[2]) for ins in instruments}
             for n_ in names_s:
                 a, b = np.nan_to_num(arr(out, n_, 0)), np.nan_to_num(arr(db_in, n_, 0))
-                for d in range(1, N + 1):
+                for d in range(1, NP + 1):
                     if (n_, d) not in endo and not np.isclose(a[d - 1], b[d - 1], rtol=0, atol=1e-10):
                         bad("other_shock_changed", "%s at date %d: %.12g, input %.12g" % (n_, d, a[d - 1], b[d - 1]), method=method, source=source, what="shock")
             for n_ in names_v:
                 a, b = arr(out, n_, -2, -1), arr(db_in, n_, -2, -1)
                 if not np.allclose(a, b, rtol=1e-12, atol=1e-12, equal_nan=True):
                     bad("initial_condition_changed", "%s before the start: %s vs %s" % (n_, a.tolist(), b.tolist()), method=method, source=source, what="initial")
+            # (a2) first order: the same planned run with one frame per information set (force_split_frames) is the
+            #      same simulation
+            if method == "first_order":
+                try:
+                    out_s = simulate(m, db_in, span, plan=plan, method=method, force_split_frames=True)
+                    res.ev()
+                    res.count("planned_simulations_split_frames")
+                    for n_ in names_s + names_v:
+                        a, b = np.nan_to_num(arr(out_s, n_, 0)), np.nan_to_num(arr(out, n_, 0))
+                        if not np.allclose(a, b, rtol=tol, atol=tol * scale):
+                            bad("split_frames", "%s: split frames %s, single frame %s" % (n_, np.round(a, 8).tolist(), np.round(b, 8).tolist()),
+                                method=method, source=source, what="split_frames")
+                            break
+                except Exception as e:
+                    bad("exception", "force_split_frames: %s: %s" % (type(e).__name__, str(e)[:300]), method=method, source=source, error=type(e).__name__, what="split_frames")
             # (c) the planned path is an ordinary simulation under the returned shocks
             db_re = db_in.copy()
             for n_ in names_s:
@@ -228,6 +252,8 @@ def check_plan(spec, m, plan_desc, res, ctx, methods=("first_order",)):
                             what="shock" if n_ in names_s else "path")
                         break
     # ---- variants: each variant of a multi-variant run uses its own exogenized data -------------------------
+    if NP != N:
+        return
     try:
         check_variants(spec, m, plan_desc, res, bad, methods)
     except Exception as e:
@@ -309,6 +335,8 @@ def shard(item, res, ctx):
         methods = ("first_order", "stacked_time") if (len(p[1]) == 1 or not ctx.quick) else ("first_order",)
         try:
             check_plan(spec, m, p, res, ctx, methods)
+            # the same plan on a span that ends with the last plan point
+            check_plan(spec, m, p, res, ctx, methods, n_per=max(x[2] for x in list(p[1]) + list(p[2])))
         except Exception as e:
             import traceback
             res.violation("harness_or_api_exception", {"error": type(e).__name__, "mode": p[0]}, {"spec": item["spec"], "plan": [p[0], p[1], p[2]]},
@@ -331,7 +359,9 @@ def run(ctx, total, info):
     c = total.counters
     info["floors"] = {"plans": (len(total.nontrivial), 1500), "mode_k_classes": (len(total.classes.get("mode_k", ())), 4),
                       "stacked_time_successes": (c.get("planned_simulations_stacked_time", 0), 100),
-                      "variant_runs": (c.get("variant_runs", 0), 700)}
+                      "variant_runs": (c.get("variant_runs", 0), 700),
+                      "plans_ending_on_the_last_period": (c.get("plans_ending_on_the_last_period", 0), 1500),
+                      "planned_simulations_split_frames": (c.get("planned_simulations_split_frames", 0), 3000)}
 
 
 def replay(case):
@@ -340,5 +370,5 @@ def replay(case):
     m = build(spec)
     p = case["plan"]
     desc = (p[0], [tuple(t) for t in p[1]], [tuple(i) for i in p[2]])
-    check_plan(spec, m, desc, res, engine.Ctx("quick", 0), ("first_order", "stacked_time"))
+    check_plan(spec, m, desc, res, engine.Ctx("quick", 0), ("first_order", "stacked_time"), n_per=int(case.get("n_per", N)))
     return ["%s %s %s" % (v["check"], engine.sigkey(v["signature"]), v["detail"]) for v in res.violations]
